@@ -127,3 +127,26 @@ fn split_row_keeps_all_timestamps() {
     let (c, n) = piece(kani::any());
     check_rows(&c[..n]);
 }
+
+// The same claim without a loop, hence without the 3-entry bound: split_row returns the trailing marker (if the piece ends with
+// one) and, as rows, the sub-slice that starts where the piece starts and has every entry but that marker.  A sub-slice with the same
+// start and that length *is* those entries in order, so every timestamp of the piece gets a row and nothing else does.  The only
+// bound left is the capacity of the backing array (64 entries); nothing is unwound.
+#[kani::proof]
+#[kani::unwind(66)]
+fn split_row_structure_64() {
+    // (the only loop is the construction of the symbolic array)
+    let c: [FifoEntry; 64] = core::array::from_fn(|_| if kani::any() { any_timestamp() } else { any_marker() });
+    let n: usize = kani::any();
+    kani::assume(1 <= n && n <= 64);
+    let piece = &c[..n];
+    let last_is_marker = matches!(piece[n - 1], FifoEntry::WrapAroundMarker(_));
+    let (next, rows) = split_row(piece);
+    assert!(next.is_some() == last_is_marker);
+    assert!(rows.as_ptr() == piece.as_ptr());
+    assert!(rows.len() == if last_is_marker { n - 1 } else { n });
+    if let (Some(m), FifoEntry::WrapAroundMarker(w)) = (next, piece[n - 1]) {
+        assert!(m.counter == w.counter && m.timestamp_top_bit == w.timestamp_top_bit);
+        kani::cover!(true, "marker-terminated piece reachable");
+    }
+}
